@@ -311,6 +311,13 @@ class PrepareAst:
                 for cond, expr in result.branches.items()
             ]
 
+            for nr, (cond, _) in enumerate(branches):
+                for prev, _ in branches[:nr]:
+                    assert not (
+                        prev is cond
+                        or (type(prev) is type(cond) and str(prev) == str(cond))
+                    ), f"select_with: more than one branch for the selector value '{cond}'"
+
             if result.default is None:
                 # without a default value the result is undefined for every selector
                 # value that has no branch (stale value in sequential contexts,
@@ -1830,6 +1837,16 @@ class PrepareAst:
                     )
 
                     pattern._result = pattern_val
+
+                    for prev_cond, _ in cases:
+                        prev_val = prev_cond._rhs.result()
+                        assert not (
+                            prev_val is pattern_val
+                            or (
+                                type(prev_val) is type(pattern_val)
+                                and str(prev_val) == str(pattern_val)
+                            )
+                        ), f"match statement: pattern '{pattern_val}' used more than once"
 
                     cond = out.Compare(
                         out.Compare.Operator.EQ, subject, pattern, Temporary[bool]()
